@@ -78,6 +78,9 @@ def edit(c, t):
     elif k == "exp": c.expand(int(t[1]))
     elif k == "sort": c.sort()
     elif k == "copy": return c.copy()
+    elif k == "ccopy":
+        import copy as _copy
+        return _copy.copy(c)
     else: raise KeyError(k)
     return c
 
@@ -162,7 +165,7 @@ def evaluate(line: str):
                 return why
         else:
             before = names(c)
-            if t[0] == "copy":
+            if t[0] in ("copy", "ccopy"):
                 originals.append((c, before))
             try:
                 c = edit(c, t)
